@@ -71,7 +71,9 @@ func HTTP(seed uint64, n int) *Out {
 		"application/x-www-form-urlencoded", "application/x-www-form-urlencoded; charset=UTF-8", "application/x-www-form-urlencoded;charset=UTF-8", "application/x-www-form-urlencoded;",
 		"text/plain", "multipart/form-data; boundary=xyz", "application/jsonx", "application/jso", "xapplication/json", "application/x-www-form-urlencodedx", ";application/json", "; application/json",
 		"application/json ; charset=utf-8", " application/json", "Application/JSON", "APPLICATION/X-WWW-FORM-URLENCODED", "application/json\t;x=1", "application/json,text/plain", "application/ld+json",
-		"application/json; application/x-www-form-urlencoded", "application/x-www-form-urlencoded; application/json", "charset=utf-8", "a;b;c", "é/ü; x=y"}
+		"application/json; application/x-www-form-urlencoded", "application/x-www-form-urlencoded; application/json", "charset=utf-8", "a;b;c", "é/ü; x=y",
+		"application/json; charset=utf-8; charset=latin1", "Application/JSON ; charset=utf-8; Charset=UTF-8", "application/json; v=1; charset=utf-8; v=2",
+		"application/x-www-form-urlencoded; charset=utf-8; charset=latin1", "application/json; charset=utf-8; charset=utf-8", "application/json; =x", "application/json; a=\"unterminated"}
 	mkcase := func(m, ct string) {
 		req, err := http.NewRequest(m, "http://example.com/p?src=query", strings.NewReader(`{"src":"json"}`))
 		if err != nil {
@@ -102,7 +104,7 @@ func HTTP(seed uint64, n int) *Out {
 		base := eng.Pick(r, []string{"application/json", "application/x-www-form-urlencoded", "text/html", "application/jso"})
 		tail := ""
 		for j := r.Intn(4); j > 0; j-- {
-			tail += eng.Pick(r, []string{";", " ", "charset=utf-8", "q=0.5", "=", "\"", "x", ";;", "boundary=a;b"})
+			tail += eng.Pick(r, []string{";", " ", "charset=utf-8", "q=0.5", "=", "\"", "x", ";;", "boundary=a;b", ";charset=latin1", "; v=1", "; v=2", "; Charset=UTF-8"})
 		}
 		ct := base
 		if r.P(80) {
